@@ -682,10 +682,6 @@ struct StreamSim : Sim {
                         c.dec_sched.assign(tmpd, tmpd + 16 * 15);
                         gcm_secrets(s, c);
                         e.call(strfmt("isal_aes_gcm_pre_%d", bits).c_str(), S.isal_pre[c.ks], { U(key), U(kd2) });
-                        e.obs_bytes(0x600 + ci, kd2, 16 * 16);
-                        if (memcmp(kd2, c.key_data, 16 * 31) != 0)
-                                e.violation("C20", "precompute-unstable", "C20/precompute-unstable",
-                                            "two key precomputes of the same key produced different key data");
                 } else {
                         uint8_t *tmpd = e.mem.alloc(16 * 15, 16, END_FLUSH, &e.hidden, "dec schedule out", R_OUTPUT);
                         e.secrets.clear();
@@ -702,7 +698,6 @@ struct StreamSim : Sim {
                 }
                 e.check_buf(key, "gcm pre");
                 e.check_buf(c.key_data, "gcm pre");
-                e.obs_bytes(0x610 + ci, c.key_data, 16 * 16);
                 e.mem.snapshot(c.key_data); // constant from now on
         }
 
